@@ -468,7 +468,8 @@ def wedge_mesh(rng, renum=True, build=True, local=False):
                          renum=False, holes=False, build=False)
     z = np.unique(dyadic(rng, int(rng.integers(2, 4)), bits=5))
     z = z if z.size >= 2 else np.array([0.0, 0.5, 1.0])
-    m0 = skfem.MeshTri1(tp, tt) * skfem.MeshLine1(z[None, :])
+    zt = np.vstack((np.arange(z.size - 1), np.arange(1, z.size)))          # explicit connectivity of the line mesh
+    m0 = skfem.MeshTri1(tp, tt) * skfem.MeshLine1(z[None, :], zt)
     p, t = m0.p.copy(), m0.t.astype(np.int64)
     desc = {"gen": "wedge"}
     if renum:
